@@ -138,6 +138,21 @@ type _Alias = uint3[2]
 message Frame__Header { uint3 seq__no = 1; bool _flag = 2; _Kind kind_ = 3 }
 message Outer_ { message _Inner { message __Deep { bool x_ = 1 } __Deep d = 1 } _Inner i = 1; _Inner.__Deep[2] ds = 2; _Alias a = 3 }
 """
+# accepted-but-unusual schemas, each rendered by every renderer (no edits applied to them): shapes a renderer may never have seen
+UNUSUAL = {
+    "enum-without-zero": "proto u\n\nenum Level : uint3 {\n    LEVEL_LOW = 1\n    LEVEL_HIGH = 2\n}\n\ntype Levels = Level[2]\n\nmessage M {\n    Level l = 1\n    Level[3] ls = 2\n    Levels al = 3\n}\n",
+    "enum-zero-last": "proto u\n\nenum Level : uint3 {\n    LEVEL_HIGH = 7\n    LEVEL_LOW = 1\n    LEVEL_NONE = 0\n}\n\nmessage M {\n    Level l = 1\n    Level[2]' ls = 2\n}\n",
+    "enum-single-member": "proto u\n\nenum One : uint1 {\n    ONE_ONLY = 1\n}\n\nmessage M {\n    One o = 1\n}\n",
+    "enum-widest": "proto u\n\nenum Big : uint64 {\n    BIG_TOP = 18446744073709551615\n    BIG_MID = 9223372036854775808\n}\n\nmessage M {\n    Big b = 1\n    Big[2] bs = 2\n}\n",
+    "only-nested-definitions": "proto u\n\nmessage Holder {\n    enum K : uint2 {\n        K_A = 0\n    }\n    message In {\n        K k = 1\n    }\n}\n\nmessage M {\n    Holder h = 1\n    Holder.In i = 2\n    Holder.K[2] ks = 3\n}\n",
+    "alias-of-bool-and-byte": "proto u\n\ntype Flag = bool\ntype Oct = byte\ntype Flags = Flag[3]\ntype Octs = Oct[2]'\n\nmessage M {\n    Flag f = 1\n    Flag[2] fs = 2\n    Flags all = 3\n    Octs o = 4\n    Oct[2] os = 5\n}\n",
+    "empty-everything": "proto u\n\nmessage A {\n}\n\nmessage B' {\n}\n\nmessage M {\n    A a = 1\n    B b = 2\n    A[2] as = 3\n    B[2]' bs = 4\n}\n",
+    "constants-only": "proto u\n\nimport \"lib.bitproto\"\nimport al \"lia.bitproto\"\n\nconst A = lib.LK * 2 + al.AK\nconst B = \"x\"\nconst C = yes\nconst D = A - A\nconst E = B\nconst F = C\n",
+    "max-field-numbers": "proto u\n\nmessage In {\n    bool a = 255\n    uint3[2] b = 254\n}\n\nmessage M {\n    In i = 255\n    In[2] is = 254\n    int64 w = 1\n}\n",
+    "options-everywhere": "proto u\n\noption c.name_prefix = \"u_\"\noption c.struct_packing_alignment = 1\noption go.package_path = \"x/u\"\noption py.module_name = \"umod\"\n\nmessage M {\n    option max_bytes = 3\n    message N {\n        option max_bytes = 1\n        bool x = 1\n    }\n    N n = 1\n    uint9 v = 2\n}\n",
+    "imported-everything": "proto u\n\nimport \"lib.bitproto\"\nimport al \"lia.bitproto\"\n\ntype LEs = lib.LE[2]\n\nmessage M {\n    lib.LE e = 1\n    lib.LM m = 2\n    al.AM[2]' ams = 3\n    LEs les = 4\n    bool[lib.LK] bits = 5\n}\n",
+    "deep-nesting": "proto u\n\nmessage A {\n    message B {\n        message C {\n            message D {\n                enum E : uint2 {\n                    E_Z = 0\n                }\n                E e = 1\n            }\n            D d = 1\n        }\n        C c = 1\n        C.D cd = 2\n    }\n    B b = 1\n    B.C.D.E far = 2\n}\n",
+}
 QUICK_SEEDS = ["basic", "nested", "imports", "empty", "arith", "semis", "odd", "unders"]
 
 AUX = {
@@ -269,6 +284,8 @@ def all_inputs(tier):
     for n in names[:3] if tier == "quick" else names:
         for label, t in truncations(SEEDS[n]):
             out.append(((n,) + tuple(map(str, label)), t, {}))
+    for n, t in UNUSUAL.items():
+        out.append((("unusual", n), t, {}))
     for n in names:
         for label, t in odd_positions(SEEDS[n]):
             out.append(((n,) + tuple(map(str, label)), t, {}))
@@ -353,6 +370,10 @@ def run_unit(unit):
                     f.write(text)
                 raw = text
                 text = text.decode("latin-1")
+            if not is_bytes:
+                # the main file exists on disk under the name the parser is told (imports compare files by identity)
+                with open(path, "w", encoding="utf-8", errors="surrogateescape", newline="") as f:
+                    f.write(text)
             out.count("states")
             out.count("transitions")
             out.count("evaluations")
@@ -369,6 +390,8 @@ def run_unit(unit):
                         proto = parse_string(text, filepath=path)
             except (ParserError, OSError) as e:
                 err = e
+                if label[0] in ("seed", "unusual"):
+                    out.count("valid_seed_rejected")  # vacuity guard (every seed is a valid schema)
             except Timeout as e:
                 out.violation(check="parse", symptom="hang", site="parse", features=features_of(text, label), desc="input %r: no result within 10 s" % (label,),
                               schema={"main.bitproto": text[:5000]}, replay=dict(kind="c09", text=text, aux=aux, raw=(raw.hex() if is_bytes else None)))
@@ -439,6 +462,8 @@ def main(pid, tier):
             g.append("no input of " + need)
     if c["accepted"] < 100 or c["rejected"] < 1000:
         g.append("accepted=%d rejected=%d" % (c["accepted"], c["rejected"]))
+    if c["valid_seed_rejected"] > 2:
+        g.append("%d of the valid seed schemas were rejected (harness or tree problem: the edits of a rejected seed explore nothing)" % c["valid_seed_rejected"])
     cov = dict(states=c["states"], transitions=c["transitions"], traces_validated_against_impl=c["traces"], evaluations=c["evaluations"],
                distinct_nontrivial=c["nontrivial"], accepted=c["accepted"], rejected=c["rejected"], renders=c["renders"],
                seeds=QUICK_SEEDS if tier == "quick" else list(SEEDS), vocabulary=len(VOCAB),
